@@ -641,8 +641,11 @@ class Array(metaclass=MetaArray):
             shape = get_shape_from_array(value, len(self._shape))
             fits = tuple(shape) == tuple(self._shape)
         if fits and (
-            is_integer(value) or hasattr(self._itemtype, "_dtype")
+            is_integer(value)
+            or (hasattr(self._itemtype, "_dtype") and hasattr(value, "dtype"))
         ):
+            # written in one go (a nplike array of scalars cannot be refused
+            # half way, a list can: its items are converted one by one)
             self.__class__._to_buffer(self._buffer, self._offset, value)
         elif fits:
             # every item keeps the space it got at creation: update in place
